@@ -22,9 +22,9 @@ func (p *Prog) desc(v ssa.Value, d int) string {
 	}
 	switch x := v.(type) {
 	case *ssa.Parameter:
-		return x.Name()
+		return ParamName(x)
 	case *ssa.FreeVar:
-		return x.Name()
+		return LocalName(x)
 	case *ssa.Const:
 		if x.IsNil() {
 			return "nil"
@@ -41,7 +41,7 @@ func (p *Prog) desc(v ssa.Value, d int) string {
 		return x.Name()
 	case *ssa.Alloc:
 		if x.Comment != "" {
-			return x.Comment
+			return LocalName(x)
 		}
 		return "new"
 	case *ssa.FieldAddr:
